@@ -181,7 +181,7 @@ def _short(v):
     return s if len(s) < 80 else s[:77] + '...'
 
 
-def trial(contract, build, values=None, seed=0, ignore=()):
+def trial(contract, build, values=None, seed=0, ignore=(), only=None, post_body=None):
     """Run one differential trial.  Returns None (agree), 'reject', or a dict describing the disagreement."""
     fa = ConcFactory(values, seed)
     fb = ConcFactory(values, seed)
@@ -203,7 +203,20 @@ def trial(contract, build, values=None, seed=0, ignore=()):
         return 'reject'
     out_a = run_native(real, args_a)
     diffs = []
-    if out_a[0] != out_b[0]:
+    if only is not None:
+        # property-filtered check: only the named conditions on the code's own post-state
+        import fnmatch
+        if out_a[0] == 'return' and post_body is not None:
+            with warnings.catch_warnings():
+                warnings.simplefilter('ignore')
+                with np.errstate(all='ignore'):
+                    for nm, ok in post_body(fa, args_a, out_a[1]):
+                        nm = 'post_body: ' + nm
+                        if any(fnmatch.fnmatchcase(nm, p) for p in only) and not ok:
+                            diffs.append('%s: does not hold on the post-state of the real code' % nm)
+        elif out_a[0] != out_b[0] and any(fnmatch.fnmatchcase('outcome', p) for p in only):
+            diffs.append('outcome: code %s, contract %s' % (out_a, out_b[0]))
+    elif out_a[0] != out_b[0]:
         diffs.append('outcome: code %s, contract %s' % (
             'returns' if out_a[0] == 'return' else 'raises ' + out_a[1],
             'returns' if out_b[0] == 'return' else 'raises ' + out_b[1]))
@@ -217,6 +230,13 @@ def trial(contract, build, values=None, seed=0, ignore=()):
         names = ['return'] + ['arg ' + k for k in sorted(args_a)]
         for nm, x, y in zip(names, ra[2], rb[2]):
             diff(x, y, nm, diffs, ignore=ignore)
+        if post_body is not None:
+            with warnings.catch_warnings():
+                warnings.simplefilter('ignore')
+                with np.errstate(all='ignore'):
+                    for nm, ok in post_body(fa, args_a, out_a[1]):
+                        if not ok:
+                            diffs.append('post_body: %s: does not hold on the post-state of the real code' % nm)
     if not diffs:
         return None
     return {'inputs': _jsonable(fa.used), 'diffs': diffs, 'seed': seed,
@@ -233,26 +253,26 @@ def _jsonable(d):
     return out
 
 
-def search(contract, build, model_vals=None, n_random=200, seed=0, ignore=()):
+def search(contract, build, model_vals=None, n_random=200, seed=0, ignore=(), only=None, post_body=None):
     """Directed search for a failing input: the solver's model first, then random pre-states."""
     tried = 0
     rejected = 0
     if model_vals:
-        r = trial(contract, build, model_vals, seed, ignore)
+        r = trial(contract, build, model_vals, seed, ignore, only, post_body)
         tried += 1
         if isinstance(r, dict):
             r['from_model'] = True
             return r, tried
         # model values for some symbols, random for the rest
         for s in range(5):
-            r = trial(contract, build, model_vals, seed + 1000 + s, ignore)
+            r = trial(contract, build, model_vals, seed + 1000 + s, ignore, only, post_body)
             tried += 1
             if isinstance(r, dict):
                 r['from_model'] = True
                 return r, tried
     s = 0
     while tried < n_random + (6 if model_vals else 0) and s < 20 * n_random:
-        r = trial(contract, build, None, seed + s, ignore)
+        r = trial(contract, build, None, seed + s, ignore, only, post_body)
         s += 1
         if r == 'reject':
             rejected += 1
